@@ -291,15 +291,18 @@ def sort_single_step(maxlen, bats=("u", "b"), kinds=("sort", "sort_by", "sort_by
     return cases
 
 
-def rand_adapt_history(rng, kind, nev, fresh, bats=("u", "b"), flavs=("static", "dyninit", "dynamic"), lone_polls=True):
-    """one random multi-step history.  `fresh()` yields a new element value."""
+def rand_adapt_history(rng, kind, nev, fresh, bats=("u", "b"), flavs=("static", "dyninit", "dynamic"), lone_polls=True, big=False):
+    """one random multi-step history.  `fresh()` yields a new element value.
+    big=True: sources of 60..200 items, limits up to 260, appends of up to 70 items (beyond imbl's
+    chunk size 64 and every small-scope bound used elsewhere)"""
     bat = rng.choice(bats)
     is_lts = kind in ("head", "tail", "skip")
-    n0 = rng.randrange(6)
+    n0 = rng.randrange(60, 200) if big else rng.randrange(6)
     src = [fresh() for _ in range(n0)]
+    maxlim = 260 if big else 8
     if is_lts:
         flav = rng.choice(flavs)
-        arg = "-" if flav == "dynamic" else str(rng.randrange(8))
+        arg = "-" if flav == "dynamic" else str(rng.randrange(maxlim))
     elif kind.startswith("filter"):
         flav, arg = "-", str(rng.randrange(256))
     else:
@@ -317,10 +320,10 @@ def rand_adapt_history(rng, kind, nev, fresh, bats=("u", "b"), flavs=("static", 
         for _ in range(20):
             k = rng.randrange(12)
             if k == 0:
-                a = [fresh() for _ in range(rng.randrange(4))]
+                a = [fresh() for _ in range(rng.randrange(70 if big else 4))]
                 length += len(a)
                 return "Append" + vec(a)
-            if k == 1 and rng.random() < 0.4:
+            if k == 1 and rng.random() < (0.05 if big else 0.4):
                 length = 0
                 return "Clear"
             if k == 2:
@@ -349,8 +352,8 @@ def rand_adapt_history(rng, kind, nev, fresh, bats=("u", "b"), flavs=("static", 
                 n = rng.randrange(length)
                 length = n
                 return "Truncate(%d)" % n
-            if k == 10 and rng.random() < 0.4:
-                a = [fresh() for _ in range(rng.randrange(5))]
+            if k == 10 and rng.random() < (0.1 if big else 0.4):
+                a = [fresh() for _ in range(rng.randrange(150 if big else 5))]
                 length = len(a)
                 return "Reset" + vec(a)
         length += 1
@@ -370,7 +373,7 @@ def rand_adapt_history(rng, kind, nev, fresh, bats=("u", "b"), flavs=("static", 
             if sortk or not lone_polls or rng.random() < 0.6:
                 evs.append("D")
         elif r < 0.78 and is_lts and flav != "static":
-            evs.append("l:%d" % rng.randrange(9))
+            evs.append("l:%d" % rng.randrange(maxlim + 1))
             if rng.random() < 0.5:
                 evs.append("D")
         elif r < 0.9:
@@ -394,13 +397,14 @@ def rand_adapt(rng, kinds, n, maxev=30, **kw):
         if kind.startswith("sort"):
             # distinct values so that ties are distinguishable: key*10 + uid, uid unique per key decade
             used = set()
+            nkeys = 60 if kw.get("big") else 4
             def fresh():
                 for _ in range(1000):
-                    v = rng.randrange(4) * 10 + rng.randrange(10)
+                    v = rng.randrange(nkeys) * 10 + rng.randrange(10)
                     if v not in used:
                         used.add(v)
                         return v
-                v = 40 + len(used)
+                v = nkeys * 10 + len(used)
                 used.add(v)
                 return v
         else:
@@ -517,16 +521,25 @@ def ovec_traversal_exhaustive(maxlen):
     return cases
 
 
-def ovec_random(rng, n, maxops=60, lagbias=False):
+def ovec_random(rng, n, maxops=60, lagbias=False, big=False):
+    """big=True: the vector starts with 70..200 items and capacities go up to 64"""
     cases = []
     for _ in range(n):
         cap = rng.choice((1, 2, 3, 5, 16) if lagbias else (1, 2, 3, 4, 16, 16))
+        if big:
+            cap = rng.choice((3, 16, 33, 64))
         pollp = rng.choice((0.2, 0.4, 0.6)) if lagbias else rng.choice((0.5, 0.8, 1.0))
         ops = []
         length = 0
+        if big:
+            length = rng.randrange(70, 200)
+            ops.append("append" + vec([rng.randrange(30) for _ in range(length)]))
         tlen = 0
         nsubs = 0
         live = []
+        if big:
+            ops.append("sub(%s)" % rng.choice("pb"))
+            nsubs, live = 1, [0]
         in_txn = False
         nops = rng.randrange(3, maxops)
 
@@ -536,9 +549,9 @@ def ovec_random(rng, n, maxops=60, lagbias=False):
             x = rng.randrange(30)
             bad = rng.random() < 0.05
             if k == 0:
-                a = [rng.randrange(30) for _ in range(rng.randrange(4))]
+                a = [rng.randrange(30) for _ in range(rng.randrange(70 if big else 4))]
                 return "append" + vec(a), ln + len(a)
-            if k == 1:
+            if k == 1 and (not big or rng.random() < 0.1):
                 return "clear", 0
             if k == 2:
                 return "push_front(%d)" % x, ln + 1
